@@ -262,7 +262,8 @@ CHECKS = {
        'LOGIN arguments, value also as last argument of the line); command-word case as 6 symbolic bits; mailbox names (any code points '
        'except surrogates up to the bound, printable ASCII longer) round-trip through modified UTF-7 (exact codec models); sequence sets '
        'with symbolic numbers round-trip; SequenceSet.build denotes exactly its input; a header field name in BODY[HEADER.FIELDS (...)] '
-       'spelled as either literal, quoted or atom names the same field.',
+       'spelled as either literal, quoted or atom names the same field; of all names of five code points exactly the ASCII spellings of '
+       'INBOX stand for INBOX.',
   note=TRUST + 'Outside: date-time (strptime), case mapping outside ASCII, end-to-end command effects beyond the tagged result.',
   technique='symbolic execution of the real parsers/serialisers with z3, metamorphic oracles'),
  'C20': dict(
